@@ -6,8 +6,9 @@ script = {"env": "absent" | "healthy" | "sandbox", "events": [ev, ...]}
 ev     = ["act", engine, conn_id|null, cfg]      sqlframe.activate(engine, conn, config)
          ["deact"]                                sqlframe.deactivate()
          ["enter", engine, conn_id|null, cfg]    cm = sqlframe.activate_context(...); cm.__enter__()   (what `with` does)
-         ["exit", "normal"|"raise"|"sraise"]     innermost cm.__exit__(None,None,None) / (type(exc), exc, tb)
-                                                 "sraise" passes the exception that the last getOrCreate raised
+         ["exit", "normal"|"raise"|"sraise"|"braise"]   innermost cm.__exit__(None,None,None) / (type(exc), exc, tb)
+                                                 "sraise" passes the exception that the last getOrCreate raised,
+                                                 "braise" a BaseException that is not an Exception (KeyboardInterrupt)
          ["goc"]                                  from pyspark.sql import SparkSession; SparkSession.builder.getOrCreate()
          ["imp", form, path]                      form A: importlib.import_module(path)   (= module lookup of `from path import x`)
                                                   form S: `import path as m`             (statement)
@@ -229,7 +230,12 @@ def main():
                         args = (None, None, None)
                         exc = None
                     else:
-                        exc = last_exc if (ev[1] == "sraise" and last_exc is not None) else RuntimeError("c20: raised in the block")
+                        if ev[1] == "braise":
+                            exc = KeyboardInterrupt("c20: the block was interrupted")
+                        elif ev[1] == "sraise" and last_exc is not None:
+                            exc = last_exc
+                        else:
+                            exc = RuntimeError("c20: raised in the block")
                         args = (type(exc), exc, exc.__traceback__)
                     try:
                         swallowed = cm.__exit__(*args)
